@@ -517,26 +517,20 @@ theorem trkH_eq (a : Nat) (s : St) : trkH a s = hcount a (s.trkDsp.prepared.map 
   unfold trkH optOne; cases s.trkDsp.curHandle <;> rfl
 
 /-- `DespawnAccessTracker::start`: a prepared handle becomes the current one; the previous current handle is handed out. -/
-theorem TrkDsp.start_handles (t : TrkDsp) (sys a : Nat) :
-    hcount a ((t.start sys).1.prepared.map (·.2.2)) + optOne a (t.start sys).1.curHandle + optOne a (t.start sys).2 =
+theorem TrkDsp.start_handles (t : TrkDsp) (sys src : Nat) (hd : Handle) (a : Nat) :
+    hcount a ((t.start sys src hd).1.prepared.map (·.2.2)) + optOne a (t.start sys src hd).1.curHandle + optOne a (t.start sys src hd).2 =
       hcount a (t.prepared.map (·.2.2)) + optOne a t.curHandle := by
-  unfold TrkDsp.start
-  cases hf : findIdx' (fun p => p.1 == sys) t.prepared 0 with
-  | none => simp [optOne]
-  | some i =>
-    obtain ⟨pre, x, post, hl, hlen, _⟩ := split_at_first _ _ _ hf
-    have hget : t.prepared[i]? = some x := by rw [hl, ← hlen]; simp
-    obtain ⟨x1, x2, x3⟩ := x
-    simp only [hget]
-    have hperm := swapRemove_perm pre (x1, x2, x3) post
-    rw [hlen, ← hl] at hperm
-    have hp := (hperm.map (fun p : Nat × Nat × Handle => p.2.2)).countP_eq (fun h => h.arc == some a)
+  by_cases hm : (sys, src, hd) ∈ t.prepared
+  · obtain ⟨_, _, h3, h4, h5⟩ := TrkDsp.start_claims_own t sys src hd hm
+    rw [h3, h4, h5]
+    have hp := ((List.perm_cons_erase hm).map (fun p : Nat × Nat × Handle => p.2.2)).countP_eq (fun h => h.arc == some a)
     simp only [hcount] at *
-    rw [hp, hl]
-    simp only [List.map_append, List.map_cons, List.countP_append, List.countP_cons, optOne, hOne]
-    by_cases hx : x3.arc = some a
-    · simp [hx]; omega
+    rw [hp]
+    simp only [List.map_cons, List.countP_cons, optOne, hOne]
+    by_cases hx : hd.arc = some a
     · simp [hx]
+    · simp [hx]
+  · rw [TrkDsp.start_none t sys src hd hm]; simp [optOne]
 
 end Cobweb
 
@@ -553,11 +547,12 @@ theorem arc_setupK (s : St) (k : Kind) (sys : Nat) : ArcStep (fun _ => 0) (fun _
   · exact ArcStep.refl s
   · exact (ArcStep.refl s).right ⟨⟨rfl, rfl, rfl, rfl, rfl, rfl⟩, rfl, rfl, rfl⟩
   · exact (ArcStep.refl s).right ⟨⟨rfl, rfl, rfl, rfl, rfl, rfl⟩, rfl, rfl, rfl⟩
-  · have h1 : ArcStep (fun a => trkH a s) (fun a => trkH a ({ s with trkDsp := (s.trkDsp.start sys).1 } : St)) s
-        ({ s with trkDsp := (s.trkDsp.start sys).1 } : St) := arc_setTrk rfl rfl rfl rfl rfl rfl rfl rfl
-    have h2 := arc_dropOpt ({ s with trkDsp := (s.trkDsp.start sys).1 } : St) (s.trkDsp.start sys).2
+  · rename_i src hd
+    have h1 : ArcStep (fun a => trkH a s) (fun a => trkH a ({ s with trkDsp := (s.trkDsp.start sys src hd).1 } : St)) s
+        ({ s with trkDsp := (s.trkDsp.start sys src hd).1 } : St) := arc_setTrk rfl rfl rfl rfl rfl rfl rfl rfl
+    have h2 := arc_dropOpt ({ s with trkDsp := (s.trkDsp.start sys src hd).1 } : St) (s.trkDsp.start sys src hd).2
     refine (ArcStep.trans h1 h2 (fun x hx => hx)).zero (fun a => ?_)
-    have := TrkDsp.start_handles s.trkDsp sys a
+    have := TrkDsp.start_handles s.trkDsp sys src hd a
     simp only [trkH_eq]
     omega
   · exact (ArcStep.refl s).right ⟨⟨rfl, rfl, rfl, rfl, rfl, rfl⟩, rfl, rfl, rfl⟩
@@ -818,8 +813,8 @@ theorem arc_applyCmd (s : St) (c : Cmd) (hf : s.arcRc s.nextArc = 0) :
       arc_setTrk rfl rfl rfl rfl rfl rfl rfl rfl
     have h2 : ArcStep (fun _ => 0) (fun _ => 0)
         ({ s with trkDsp := { s.trkDsp with prepared := s.trkDsp.prepared ++ [(sys, src, h)] } } : St)
-        (({ s with trkDsp := { s.trkDsp with prepared := s.trkDsp.prepared ++ [(sys, src, h)] } } : St).push [.runnerStart sys (.dspReact src)]) :=
-      arc_push_plain ⟨rfl, rfl, rfl, rfl, rfl, rfl, rfl⟩ rfl [.runnerStart sys (.dspReact src)] rfl (fun _ => rfl)
+        (({ s with trkDsp := { s.trkDsp with prepared := s.trkDsp.prepared ++ [(sys, src, h)] } } : St).push [.runnerStart sys (.dspReact src h)]) :=
+      arc_push_plain ⟨rfl, rfl, rfl, rfl, rfl, rfl, rfl⟩ rfl [.runnerStart sys (.dspReact src h)] rfl (fun _ => rfl)
     have h3 := ArcStep.trans h1 h2 (fun x hx => hx)
     have hk : ∀ a, trkH a ({ s with trkDsp := { s.trkDsp with prepared := s.trkDsp.prepared ++ [(sys, src, h)] } } : St) = trkH a s + hOne a h := by
       intro a; simp [trkH_eq, hcount_cons, hOne]; omega
